@@ -22,6 +22,7 @@ type Program struct {
 	pkgByPath map[string]*ssa.Package
 	Module    string
 	LoadS     float64
+	funcs     map[*ssa.Function]bool
 }
 
 var runtimeErrorT types.Type = types.Typ[types.String]
@@ -138,4 +139,11 @@ func (P *Program) Externals() (funcs map[string][]string, globals map[string][]s
 		}
 	}
 	return
+}
+
+func (P *Program) allFuncs() map[*ssa.Function]bool {
+	if P.funcs == nil {
+		P.funcs = ssautil.AllFunctions(P.Prog)
+	}
+	return P.funcs
 }
